@@ -24,6 +24,7 @@ fn main() {
         "c05" => drivers::c05::drive(&rest),
         "c06" => drivers::c06::drive(&rest),
         "c14" => drivers::c14::drive(&rest),
+        "pipe" => drivers::pipe::drive(&rest),
         "c15" => drivers::c15::drive(&rest),
         "c16" => drivers::c16::drive(&rest),
         other => {
